@@ -76,29 +76,43 @@ def free_vars(tree, out=None):
     return out
 
 
-def to_str(tree, style=0):
-    """Render with full parenthesisation of compound operands (style 1: `^` for powers, extra spaces)."""
+PREC = {"+": 1, "-": 1, "*": 2, "/": 2, "neg": 3, "pow": 4}
+
+
+def to_str(tree, style=0, parent=0, right=False):
+    """Render an expression tree.  style 0: minimal parentheses (by precedence), `**`; style 1: minimal parentheses,
+    `^`, x' notation (see eq_str); style 2: no spaces; style 3: fully parenthesised."""
     k = tree[0]
-    sp = " " if style != 2 else ""
+    sp = "" if style == 2 else " "
     if k == "num":
         v = tree[1]
         return repr(float(v)) if v >= 0 else f"({repr(float(v))})"
     if k == "var":
         return tree[1]
-    if k == "neg":
-        return f"(-{to_str(tree[1], style)})"
-    if k == "pow":
-        op = "^" if style == 1 else "**"
-        return f"({to_str(tree[1], style)}){op}{tree[2]}"
     if k == "call":
         return f"{tree[1]}({(',' + sp).join(to_str(a, style) for a in tree[2:])})"
-    return f"({to_str(tree[1], style)}{sp}{k}{sp}{to_str(tree[2], style)})"
+    if style == 3:
+        if k == "neg":
+            return f"(-{to_str(tree[1], style)})"
+        if k == "pow":
+            return f"({to_str(tree[1], style)})**{tree[2]}"
+        return f"({to_str(tree[1], style)} {k} {to_str(tree[2], style)})"
+    p = PREC[k]
+    if k == "neg":
+        body = f"-{to_str(tree[1], style, p)}"
+    elif k == "pow":
+        op = "^" if style == 1 else "**"
+        body = f"{to_str(tree[1], style, p + 1)}{op}{tree[2]}"
+    else:
+        a = to_str(tree[1], style, p)
+        b = to_str(tree[2], style, p, right=True)
+        body = f"{a}{sp}{k}{sp}{b}"
+    need = p < parent or (p == parent and right and k in "+-*/") or (k == "neg" and parent > 0)
+    return f"({body})" if need else body
 
 
 def eq_str(lhs, kind, tree, style=0):
     rhs = to_str(tree, style)
-    if rhs.startswith("(") and rhs.endswith(")") and tree[0] in "+-*/":
-        rhs = rhs[1:-1]
     if kind == "de":
         return (f"d/dt * {lhs} = {rhs}") if style != 1 else f"{lhs}' = {rhs}"
     return f"{lhs} = {rhs}"
